@@ -6,6 +6,7 @@ mod engine_b;
 mod engine_c;
 mod props_d;
 mod props_e;
+mod props_f;
 mod pool;
 mod props_a;
 mod props_c08;
@@ -55,6 +56,7 @@ fn main() {
                 "C04" => props_d::c04(tier, seed),
                 "C05" => props_a::c05(tier, seed),
                 "C06" => props_a::c06(tier, seed),
+                "C07" => props_e::c07(tier, seed),
                 "C08" => props_c08::c08(tier, seed),
                 "C15" => props_a::c15(tier, seed),
                 "C17" => props_a::c17(tier, seed),
@@ -79,6 +81,7 @@ fn main() {
                         "A" => engine_a::replay(&r.config, &r.case),
                         "B" => engine_b::replay(&r.config, &r.case),
                         "C04" => props_d::replay_c04(&r.config),
+                        "C07" => props_e::replay_c07(&r.config, &r.case),
                         "C03" => engine_c::replay_c03(&r.config, &r.case),
                         "C16" => engine_c::replay_c16(&r.config, &r.case),
                         "C18" => engine_c::replay_c18(&r.config, &r.case),
